@@ -39,6 +39,15 @@
 /*============================================================================*/
 
 void eb_pck(eb_t r, const eb_t p) {
+	if (fb_is_zero(p->x)) {
+		/* The point of order two (0, sqrt(b)) is the only one with x1 = 0. */
+		fb_zero(r->x);
+		fb_zero(r->y);
+		fb_set_dig(r->z, 1);
+		r->coord = BASIC;
+		return;
+	}
+
 	/* z3 = y1/x1. */
 	fb_inv(r->z, p->x);
 	fb_mul(r->z, r->z, p->y);
@@ -58,6 +67,18 @@ int eb_upk(eb_t r, const eb_t p) {
 
 	fb_null(t0);
 	fb_null(t1);
+
+	if (fb_is_zero(p->x)) {
+		/* The only point with x1 = 0 is (0, sqrt(b)), packed with bit 0. */
+		if (fb_get_bit(p->y, 0) != 0) {
+			return 0;
+		}
+		fb_srt(r->y, eb_curve_get_b());
+		fb_zero(r->x);
+		fb_set_dig(r->z, 1);
+		r->coord = BASIC;
+		return 1;
+	}
 
 	RLC_TRY {
 		fb_new(t0);
